@@ -4,6 +4,23 @@ import json, os
 PROPS = [json.loads(l)['id'] for l in open('/verif/properties.jsonl')]
 
 CLAIMED = {
+ 'C09': dict(
+   category='proof',
+   text=('PARTIAL proof on sweep programs regenerated from the source + operation-level trace correspondence + dense oracles. The 1-site and 2-site sweep PROGRAMS are '
+         'TRANSLATED from yastn/tn/mps/_dmrg.py on every run (tools/translate/tr_sweep.py, fail-closed) and run on a hand-written bookkeeping model of the environment '
+         'dictionary (every entry absent / fresh / stale, incl. the cached products of the precompute variant). Proved for EVERY chain length, every number of sweeps and '
+         'every switching between the methods, with and without precompute: each effective-Hamiltonian application and each energy measurement reads entries that are '
+         'present and computed from the current site tensors, no gauge move is refused, and each sweep hands the environment over in the state the next expects -- so the '
+         'reported energy is computed from environments of the returned state. Tie of the hand-written semantics: real dmrg_ runs are observed operation by operation '
+         '(methods wrapped at run time; no change to the repository); the operation sequence must equal the generated program and after EVERY operation the measured '
+         'status of every entry (absent / equal to a recomputation from the current tensors / different) must match the model. NOT proved: the contractions, the local '
+         'eigensolver, variational bound, monotonicity, eigenstate at full bond dimension, penalties -- validated against dense numpy (eigvalsh in the charge sector, '
+         '<H>, norms) for every operator family x symmetry, N = 2..6, real/complex, H single / scaled / sums of MPOs / projection penalties, 12 sweeps.'),
+   design_ref='DESIGN.md section 6 C09',
+   note=('Trusted: Coq kernel, no axioms; translator tr_sweep.py (its vocabulary of effectful calls; anything else on psi/env is refused); the status semantics of each '
+         'operation (Sweep/Sweep.v) is hand-written from _env.py / _mps_obc.py and tied by the trace correspondence (a fresh entry must equal its recomputation to 1e-9; '
+         'stale entries are only required to be present); Env_project and Env_sum are covered by the traces, not by separate models.'),
+   technique='Coq proof over translated sweep programs (loop invariants for all N; symbolic execution of the loop body) + operation-level trace correspondence + dense numpy oracles'),
  'C18': dict(
    category='proof',
    text=('PARTIAL proof on a model regenerated from the source + trace correspondence + dense oracles. The control arithmetic of expmv / eigs / lin_solver is TRANSLATED from '
